@@ -15,3 +15,26 @@ package redis
 //@   loop 2:
 //@     invariant bounds: s + 1 <= e && e <= len(key)
 //@     invariant no_close_before: digest.SpecFirstIndex(key, '}', s + 1) == digest.SpecFirstIndex(key, '}', e)
+
+// ---- a transaction batch stays in one slot (C18) ---------------------------------------------
+//   cmdSlot  slot of the first key of the command being put
+//@ func Cluster.chooseNodeWithCmdAndKeys
+//@   trusted frame: computes the routing of a command, modifies nothing the batcher owns
+
+//@ func txnBatcher.joinError
+//@   trusted frame: records the first error of the batch, returns the error it was given
+//@   ensures same_error: result == err
+//@   modifies tb.err
+
+//@ func txnBatcher.Put
+//@   arith int
+//@   properties C18
+//@   opaque SpecHashSlot
+//@   ghost var cmdSlot mathint = 0 - 1
+//@   requires nonnil: tb != nil
+//@   modifies heap, cmdSlot
+//@   set cmdSlot = slot after store slot
+//@   ensures accepted_has_slot: result == nil && len(tb.cmds) == old(len(tb.cmds)) + 1 ==> tb.slot != nil
+//@   ensures accepted_command_is_in_the_batch_slot: result == nil && len(tb.cmds) == old(len(tb.cmds)) + 1 ==> deref(tb.slot) == cmdSlot
+//@   loop 1:
+//@     invariant keys_share_the_first_slot: slot == cmdSlot && (forall j int :: 0 <= j && j <= rangeindex ==> digest.SpecHashSlot(keys[1 + j]) == slot)
